@@ -508,6 +508,10 @@ def fix_reimported_names(source: str) -> str:
 
             referenced_name = asname if asname else name
 
+            if name == "*":
+                node_names.append(alias)  # Not a name: starred imports are left to fix_starred_imports
+                continue
+
             module_package = node.module.rpartition(".")[0]
             if trace_result := trace_origin(
                 name, module_source, __all__=True, package=module_package
